@@ -168,3 +168,9 @@ Proof.
   exists [([VFloat nan], VInt 1); ([VFloat nan], VInt 2)]. split; [vm_compute; reflexivity|].
   intros k v [[= <- _]|[[= <- _]|[]]]; reflexivity.
 Qed.
+
+(* K-C21-zerokey: the grouping equality is finer than Rust's == (and than Cypher's =): 0.0 and
+   -0.0 are == but are different grouping keys *)
+Lemma zero_keys_separate :
+  exists k1 k2, deq k1 k2 = true /\ cy_eq k1 k2 = Some true /\ key_eq [k1] [k2] = false.
+Proof. exists (VFloat 0%float), (VFloat (-0)%float). vm_compute. repeat split. Qed.
